@@ -1,6 +1,7 @@
 """C01 — the safe API is total: no UB, crash or hang; failure only via optional/either."""
 import os
 
+import itertools
 from vlib.runner import Batch
 from props import c06
 
@@ -23,7 +24,8 @@ HARNESS = {"src": "harness/c01.cpp", "flags": ["-DFCPPT_HAVE_GCC_DEMANGLE"], "re
     "libs/filesystem/src/filesystem/replace_extension.cpp", "libs/filesystem/src/filesystem/strip_prefix.cpp",
     "libs/filesystem/src/filesystem/create_directory.cpp", "libs/filesystem/src/filesystem/create_directories_recursive.cpp",
     "libs/filesystem/src/filesystem/directory_range.cpp", "libs/filesystem/src/filesystem/recursive_directory_range.cpp",
-    "libs/filesystem/src/filesystem/make_directory_range.cpp", "libs/filesystem/src/filesystem/make_recursive_directory_range.cpp"]}
+    "libs/filesystem/src/filesystem/make_directory_range.cpp", "libs/filesystem/src/filesystem/make_recursive_directory_range.cpp",
+    "libs/core/src/narrow_locale.cpp", "libs/core/src/widen_locale.cpp"]}
 TIE = ("scalar registry: translated from /repo on every run (as C06); containers / strings / arguments / streams / paths / files / environment: "
        "hand-written models with bounds-checked reads + differential correspondence; the harness is the C01 observation itself "
        "(ASan+UBSan+_GLIBCXX_ASSERTIONS, catch(...), per-line watchdog, exact-size heap buffers with poisoned non-NUL slack behind every string_view, "
@@ -209,6 +211,18 @@ def batches(rng, tier):
         ops += [f"writechars {k} s:{'vwxyz'[:ln]}" for ln in range(0, 6)]
     ops += [f"writechars {k} s:{big}" for k in ("fresh", "file", "room9999", "room10000", "throwroom9999")]
     ops += [f"writechars devfull s:{'q' * n}" for n in (0, 1, 100, 1023, 1024, 1025, 4096, 8191, 8192, 10000, 100000)]
+    # ---- narrow_locale / widen_locale: every combination of up to 4 characters of each encoded width (1, 2, 3, 4 bytes) - every
+    # growth step of the conversion buffer with something already written (the read area must survive the reallocation) - plus long runs
+    def whex(cps):
+        return "".join("%08x" % c for c in cps) if cps else "-"
+    reps = [0x41, 0xE4, 0x20AC, 0x1F600]
+    nw_ops = ["nw " + whex(list(t)) for n in range(0, 5) for t in itertools.product(reps, repeat=n)]
+    nw_ops += ["nw " + whex([c] * n) for c in reps + [0x7F, 0x80, 0x7FF, 0x800, 0xFFFF, 0x10000, 0x10FFFF] for n in (5, 6, 7, 8, 9, 15, 16, 17, 31, 33, 64, 100)]
+    nw_ops += ["nw " + whex([0x41] * a + [0x20AC] * b) for a in range(0, 6) for b in range(1, 8)]
+    nw_ops += ["nw " + whex([0xD800]), "nw " + whex([0x41, 0xDFFF, 0x42]), "nw " + whex([0x41, 0, 0x42])]
+    yield Batch("narrow-widen", nw_ops, exhaustive=True,
+                note="narrow_locale then widen_locale (C.utf8) on all strings of <= 4 characters over one character of each encoded width, runs crossing every "
+                     "buffer growth step, surrogates (failure) and an embedded NUL; reference = the C15 codecvt-loop model")
     yield Batch("streams", ops, exhaustive=True,
                 note="read_chars (one and two reads), stream_to_string, io::get/peek/read, write_chars on streams in every state: eof/fail/bad bit preset, "
                      "null streambuf, 1- and 2-character get areas, ifstream on a file and on a directory, streambuf that throws, output with limited room")
